@@ -104,19 +104,19 @@ def run(ctx):
         f = [x for x in a["variants"][0]["fields"] if x["name"] == "max_window_size"][0]
         ctx.check(f["vis"] != "pub" and not f["eff"]["reachable"], RW, "field-private", "", "the limit field must not be writable from outside",
                   observed=f["vis"])
-        d = ctx.const("ruzstd::decoding::frame_decoder::DEFAULT_MAX_WINDOW_SIZE")
-        ctx.check(d == 128 * 1024 * 1024, RW, "default-128MiB", "", "default limit", observed=d, expected=128 * 1024 * 1024)
         nb = ctx.hir(FD + "::new")
         lit = hq.struct_lits(nb["body"], "FrameDecoder")
         v = {x["name"]: hq.Canon(nb)(x["e"]) for x in lit[0]["fields"]}.get("max_window_size") if lit else None
-        ctx.check(v == "ruzstd::decoding::frame_decoder::DEFAULT_MAX_WINDOW_SIZE", RW, "new-uses-default", nb["file"],
-                  "new() installs the default limit", observed=v)
+        # (named constants are folded to their values in the normal form, so this reads the value new() installs)
+        ctx.check(v == str(128 * 1024 * 1024), RW, "new-uses-default", nb["file"], "new() installs the default limit of 128 MiB",
+                  observed=v, expected=str(128 * 1024 * 1024))
         sb = ctx.hir(FD + "::set_max_window_size")
         asg = [x for x in hq.find(sb["body"], lambda x: x.get("k") == "Assign")]
         v = hq.Canon(sb)(asg[0]["r"]) if len(asg) == 1 else None
-        ok = v in ("core::cmp::Ord::min($0, ruzstd::common::MAX_WINDOW_SIZE)", "core::cmp::Ord::min(ruzstd::common::MAX_WINDOW_SIZE, $0)",
-                   "core::cmp::min($0, ruzstd::common::MAX_WINDOW_SIZE)", "core::cmp::min(ruzstd::common::MAX_WINDOW_SIZE, $0)")
-        ctx.check(ok, RW, "setter-clamps", sb["file"], "the setter clamps to the format maximum", observed=v)
+        from . import c14
+        fmt_max = c14.SPEC["window_descriptor"]["max"]
+        ctx.check(v == "core::cmp::Ord::min($0, %d)" % fmt_max, RW, "setter-clamps", sb["file"],
+                  "the setter clamps to the format maximum", observed=v, expected="core::cmp::Ord::min($0, %d)" % fmt_max)
         rb = ctx.hir(FD + "::reset")
         c = hq.Canon(rb)
         for callee in ("FrameDecoderState::reset", "FrameDecoderState::new"):
